@@ -23,8 +23,7 @@ def contracts():
     k = GEN_IMPL.format(ty='RowVector')
     t[(k, 'cross')] = C(ensures=['rv(r) == v3_cross(rv(*self), rv(*other))'], head=AX)
     t[(k, 'dot')] = C(ensures=['r.val() == v3_dot(rv(*self), rv(*other))'], head=AX)
-    t[(k, 'scalar_div')] = C(requires=['x.val() != 0real'],
-                             ensures=['rv(r) == v3_div(rv(*self), x.val())'], head=AX)
+    t[(k, 'scalar_div')] = C(ensures=['x.val() != 0real ==> rv(r) == v3_div(rv(*self), x.val())'], head=AX)
     t[(k, 'component_mul')] = C(ensures=[
         'rv(r) == v3(self.0.val() * other.0.val(), self.1.val() * other.1.val(), self.2.val() * other.2.val())'], head=AX)
     # --- ColVector<T: Copy>
@@ -48,10 +47,10 @@ def contracts():
     t[(r'impl Matrix<Fx64>$', 'identity')] = C(ensures=['mv(r) == m3_id()'], head='        proof { Fx64::ax(); }')
     # --- Matrix<T: Exact>
     k = GEN_IMPL.format(ty='Matrix')
-    t[(k, 'scalar_div')] = C(requires=['x.val() != 0real'],
-                             ensures=['mv(r) == m3_div(mv(*self), x.val())'], head=AX)
-    t[(k, 'invert')] = C(requires=['m3_det(mv(*self)) != 0real'],
-                         ensures=['mv(r) == m3_inv(mv(*self))'], head=AX)
+    t[(k, 'scalar_div')] = C(ensures=['x.val() != 0real ==> mv(r) == m3_div(mv(*self), x.val())'], head=AX)
+    # "Will panic if the matrix is not invertible" (doc) is not true of floats: division is total; for
+    # det == 0 nothing is promised.
+    t[(k, 'invert')] = C(ensures=['m3_det(mv(*self)) != 0real ==> mv(r) == m3_inv(mv(*self))'], head=AX)
     t[(k, 'mul_vec')] = C(ensures=['cvv(r) == m3_mulvec(mv(*self), cvv(*rhs))'], head=AX)
     t[(k, 'mul_mat')] = C(ensures=['mv(r) == m3_mul(mv(*self), mv(rhs))'], head=AX)
     t[(k, 'mul_arr')] = C(ensures=[
@@ -63,6 +62,23 @@ def contracts():
     return t
 
 VIEWS = '''
+// spec side of the derived PartialEq (structural, component-wise)
+impl<T: PartialEq + vstd::std_specs::cmp::PartialEqSpec> vstd::std_specs::cmp::PartialEqSpecImpl for RowVector<T> {
+    open spec fn obeys_eq_spec() -> bool { T::obeys_eq_spec() }
+    open spec fn eq_spec(&self, other: &RowVector<T>) -> bool { self.0.eq_spec(&other.0) && self.1.eq_spec(&other.1) && self.2.eq_spec(&other.2) }
+}
+impl<T: PartialEq + vstd::std_specs::cmp::PartialEqSpec> vstd::std_specs::cmp::PartialEqSpecImpl for ColVector<T> {
+    open spec fn obeys_eq_spec() -> bool { T::obeys_eq_spec() }
+    open spec fn eq_spec(&self, other: &ColVector<T>) -> bool { self.0.eq_spec(&other.0) && self.1.eq_spec(&other.1) && self.2.eq_spec(&other.2) }
+}
+impl<T: PartialEq + vstd::std_specs::cmp::PartialEqSpec> vstd::std_specs::cmp::PartialEqSpecImpl for Matrix<T> {
+    open spec fn obeys_eq_spec() -> bool { T::obeys_eq_spec() }
+    open spec fn eq_spec(&self, other: &Matrix<T>) -> bool {
+        vstd::std_specs::cmp::PartialEqSpec::eq_spec(&self.0, &other.0) && vstd::std_specs::cmp::PartialEqSpec::eq_spec(&self.1, &other.1)
+            && vstd::std_specs::cmp::PartialEqSpec::eq_spec(&self.2, &other.2)
+    }
+}
+
 // From<[T;3]>: Verus needs the spec side of the std trait (vstd::std_specs::convert::FromSpec)
 impl<T: Copy> vstd::std_specs::convert::FromSpecImpl<[T; 3]> for RowVector<T> {
     open spec fn obeys_from_spec() -> bool { true }
@@ -125,6 +141,8 @@ def transform_matrix_source(repo, g, extra_bound='Exact'):
     n_total += n
     if n_total != 3:
         raise AnchorLost('matrix.rs: struct declarations changed shape')
+    # keep the derives Verus understands (Debug / must_use dropped)
+    text = re.sub(r'(?m)^pub struct (RowVector|ColVector|Matrix)<T>', r'#[derive(Clone, PartialEq)]\npub struct \1<T>', text)
     # generic bound: append `+ Exact`
     text, n = re.subn(r'Neg<Output = T>,', 'Neg<Output = T> + %s,' % extra_bound, text)
     if n != 2:
@@ -150,6 +168,10 @@ def transform_matrix_source(repo, g, extra_bound='Exact'):
     return text
 
 LEMMAS = open(os.path.join(os.path.dirname(os.path.abspath(__file__)), '..', 'contracts', 'verus', 'm3_lemmas.rs')).read
+
+def matrix_module(repo, g):
+    import preamble, m3lemmas
+    return '\n'.join([preamble.read('m3.rs'), VIEWS, transform_matrix_source(repo, g), LEMMAS(), m3lemmas.inverse_lemmas()])
 
 def build(repo):
     import preamble
